@@ -20,7 +20,7 @@ import (
 	"strings"
 )
 
-var ghostInts = []string{"jsize", "upcalls", "upfails", "upcancels", "uplast", "upreq", "upreqhdr", "sfleader", "sfshared", "sferrs"}
+var ghostInts = []string{"jsize", "mbytes", "mentries", "upcalls", "upfails", "upcancels", "uplast", "upreq", "upreqhdr", "sfleader", "sfshared", "sferrs"}
 
 // ghost arrays a caller can observe: a function with an assigns clause must list the ones it writes
 var observableGhost = map[string]bool{"httpstatus": true, "httpwrites": true, "respbody": true, "httperrs": true, "callcount": true,
